@@ -132,8 +132,8 @@ Definition pre_tensor_contract (s : vec) (i1 i2 : Z) : bool :=
   in_range (ndim s) i1 && in_range (ndim s) i2 && negb (i1 =? i2) && (sz s i1 =? sz s i2).
 Definition guard_tensor_contract (s : vec) (i1 i2 : Z) : res unit :=
   let N := ndim s in
-  chk (np_idx_ok N i1) ;; chk (np_idx_ok N i2) ;;          (* self.shape[i1], self.shape[i2] *)
-  chk (szw s i1 =? szw s i2) ;;
+  chk (in_range N i1 && in_range N i2) ;;                  (* "0 <= i1 < ndims and 0 <= i2 < ndims" (C19-N03 repaired) *)
+  chk (sz s i1 =? sz s i2) ;;
   chk (negb (i1 =? i2)) ;;
   if N =? 2 then Ok tt                                       (* np.trace, no further look at i1, i2 *)
   else guard_tensor_permute s (np_setdiff N [i1; i2] ++ [i1; i2]).
@@ -188,9 +188,10 @@ Definition guard_tensor_ttm (s : vec) (ms : list shp2) (dims excl : option vec) 
   | Ok (sd, Some vidx) => chk (0 <? zlen sd) ;; ttm_chain s ms tr (combine vidx sd)   (* vidx[0]: IndexError when empty *)
   end.
 
-(* element-wise binary operation of two dense tensors (numpy broadcasting decides) *)
+(* element-wise binary operation of two dense tensors: tenfun_binary compares the shapes (C19-N02 repaired);
+   numpy's broadcasting test comes after it *)
 Definition pre_tensor_binop (s u : vec) : bool := shape_eqb s u.
-Definition guard_tensor_binop (s u : vec) : res unit := chk (np_broadcast_ok s u).
+Definition guard_tensor_binop (s u : vec) : res unit := chk (shape_eqb s u) ;; chk (np_broadcast_ok s u).
 
 Definition c19_pre_agrees (p : bool) (rejected : bool) : bool := Bool.eqb (negb p) rejected.
 
@@ -210,9 +211,9 @@ Definition pre_reshape (s new : vec) : bool := zprod s =? zprod new.
 Definition pre_ttv := pre_tensor_ttv.
 Definition pre_ttm := pre_tensor_ttm.
 
-(* sptensor.innerprod: an empty receiver answers 0 before looking at the other operand *)
+(* sptensor.innerprod: the shapes are compared first (C19-N04 repaired), then an empty receiver answers 0 *)
 Definition guard_sptensor_innerprod (s : vec) (empty : bool) (u : vec) : res unit :=
-  if empty then Ok tt else chk (shape_eqb s u).
+  chk (shape_eqb s u) ;; if empty then Ok tt else chk (shape_eqb s u).
 Definition pre_sptensor_innerprod (s : vec) (empty : bool) (u : vec) : bool := shape_eqb s u.
 
 (* mttkrp(U, n): one matrix per mode, U[i] has shape[i] rows (i <> n), all the same column count *)
@@ -229,10 +230,10 @@ Definition pre_tenmat_ctor (dshape : shp2) (rd cd ts : vec) : bool :=
   is_permb (ndim ts) (rd ++ cd) && (rows dshape =? zprod (pickz ts rd)) && (cols dshape =? zprod (pickz ts cd)).
 Definition pre_sptenmat_ctor (maxrow maxcol : Z) (rd cd ts : vec) : bool :=
   is_permb (ndim ts) (rd ++ cd) && (maxrow <? zprod (pickz ts rd)) && (maxcol <? zprod (pickz ts cd)).
-(* the code: ">=" instead of ">" (A-44) *)
+(* the code: "prod(tshape[rdims]) > max(subs[:, 0])" (A-44 repaired) *)
 Definition guard_sptenmat_ctor (maxrow maxcol : Z) (rd cd ts : vec) : res unit :=
   chk ((zlen (rd ++ cd) =? ndim ts) && shape_eqb (np_sort (rd ++ cd)) (np_arange 0 (ndim ts))) ;;
-  chk (maxrow <=? zprod (pickz ts rd)) ;; chk (maxcol <=? zprod (pickz ts cd)).
+  chk (maxrow <? zprod (pickz ts rd)) ;; chk (maxcol <? zprod (pickz ts cd)).
 Definition pre_tenmat_mul (a b : shp2) : bool := cols a =? rows b.
 Definition guard_tenmat_mul (a b : shp2) : res unit := chk (cols a =? rows b).
 
@@ -260,7 +261,7 @@ Definition guard_ktensor_ctor (ms : list shp2) (wlen : option Z) : res unit :=
 (* K.arrange(permutation=p): R components *)
 Definition pre_ktensor_arrange (R : Z) (p : vec) : bool := is_permb R p.
 Definition guard_ktensor_arrange (R : Z) (p : vec) : res unit :=
-  chk (zlen p =? R) ;; chk (forallb (np_idx_ok R) p).        (* only the length is compared; numpy checks the index range *)
+  chk (zlen p =? R) ;; chk (shape_eqb (np_sort p) (np_arange 0 R)).   (* "sorted(p) == range(R)" (A-45 repaired) *)
 (* K.extract(idx) *)
 Definition pre_ktensor_extract (R : Z) (idx : vec) : bool := (1 <=? zlen idx) && (zlen idx <=? R) && forallb (in_range R) idx.
 Definition guard_ktensor_extract (R : Z) (idx : vec) : res unit :=
